@@ -101,6 +101,12 @@ class Model:
         self.inherit[k] = False
         self._add_cls(k, list(ifs), [])
 
+    def ciok(self, k, i):
+        # classImplementsOnly(K, I, implementedBy(K)): the documented way of
+        # keeping what the class lists now while cutting it off from its bases
+        cur = [x for x in IF_NAMES if x in self.impl(k)]
+        self.cio(k, i, *cur)
+
     def _set_direct(self, o, ifs):
         cur = self.impl(self.objs[o])
         new = []
@@ -201,6 +207,8 @@ class World:
             classImplementsFirst(K[op[1]], I[op[2]])
         elif t == 'cio':
             classImplementsOnly(K[op[1]], *[I[x] for x in op[2:]])
+        elif t == 'ciok':
+            classImplementsOnly(K[op[1]], I[op[2]], implementedBy(K[op[1]]))
         elif t == 'implonly':
             t = 'cio'
             implementer_only(*[I[x] for x in op[2:]])(K[op[1]])
@@ -352,6 +360,7 @@ def alphabet(cfg, hist):
         for i in IF_NAMES:
             ops += [('ci', k, i), ('cif', k, i), ('cio', k, i)]
         ops.append(('cio', k))
+        ops.append(('ciok', k, 'I2'))
     for o in insts + (['e'] if has_e else []) + (['n'] if has_n else []):
         if focus and o not in focus:
             continue
